@@ -50,11 +50,15 @@ RX = {
     101: '65000:.*', 102: '6500[01]:100', 103: '^65000:', 104: ':1', 105: '.*:666$', 106: '65001:1..',
     # ext community regexes
     201: '^rt:65000:.*', 202: '^soo:', 203: 'rt:.*:100$', 204: 'encap:8', 205: 'validation:invalid',
+    206: 'validation:valid$', 207: 'validation:not-found', 208: '^rt:10\\.0\\.0\\.1:7$', 209: 'lb:65000:0', 210: '^soo:65000:1$', 211: '^rt:65000:100$',
     # large community regexes
-    301: '^65000:.*:1$', 302: '65000:1:.*', 303: ':2:',
+    301: '^65000:.*:1$', 302: '65000:1:.*', 303: ':2:', 304: '^4294967295:4294967295:4294967295$',
     # as-path regexes (the code never evaluates these: known finding C14-1)
     401: '65001', 402: '^65001 6500[0-9]', 403: '_6500[12]_', 404: '^$', 405: '\\{65001,', 406: '^\\(6500[0-9]', 407: '65002$',
     408: '_65004_.*_65001$', 409: '^[0-9]+$', 410: '\\[.*\\]', 411: ' $',
+    412: '_99999999999_', 413: '^65001-99999999999$',
+    # one pattern per segment form that pins its brackets and its separator
+    414: '\\(65000 65004\\)', 415: '\\[65001,65002\\]', 416: '^65001 65002$', 417: '\\{65001,65002\\}', 418: '^65004 65002 65001$',     # a single form whose number does not fit u32: SingleAsPathMatch::new gives it to the regex branch
 }
 def rx_entry(i): return [1, i, list(RX[i].encode())]
 
@@ -536,6 +540,11 @@ class Ref:
         if t == 20:
             if code == 0: self.peers[op[1]] = (min(op[2][0][0], 2), list(op[2][0][1])) if op[2] else None
             return None
+        if t in (21, 22) and op[2] == 0 and code == 0:
+            # a peer has only an export override: an import request that is accepted changes what the peer's
+            # export evaluation does although nobody asked for that
+            return 'per-peer %s for the IMPORT direction was accepted and applied to peer %d\'s export policy' % (
+                'assignment' if t == 21 else 'assignment removal', op[1])
         if t == 21:
             if code != 0: return None
             old = self.peers.get(op[1])
@@ -748,10 +757,12 @@ def n6(x, m): return [6, (V6BASE | x) >> 64, (V6BASE | x) & ((1 << 64) - 1), m]
 
 class Prop:
     pid = 'C14'
+    ops_field = 'ops'          # framework shrinker: delta-debugging over the operation list
     props_file = 'Props/C14.v'
     required_theorems = ['eval_code_eq_spec', 'eval_spec_is_functional', 'aspath_regex_ignored_pre_fix_refuted',
                          'eval_never_panics_api', 'eval_never_panics_wire', 'crud_preserves_references',
-                         'crud_referenced_frozen', 'global_preserves_references', 'global_referenced_frozen', 'wire_aspath_decoded', 'wire_aspath_rendered', 'api_built_assignments_wf',
+                         'crud_referenced_frozen', 'global_preserves_references', 'global_referenced_frozen', 'wire_aspath_decoded', 'wire_aspath_rendered', 'api_built_assignments_wf', 'prefix_merge_content', 'stored_sets_keys_unique',
+                         'crud_total_on_canonical_prefixes', 'peer_effective_export_wf',
                          'prefix_set_longest_match_refuted', 'aspath_patterns_refuted', 'arithmetic_and_api_refuted']
     correspondence_name = ('Model/Policy.v eval_code + Model/PolicyTable.v crud_step vs table/src/policy.rs PolicyTable / '
                            'apply_import / apply_export (harness/hx-policy); Model/PolicyGlobal.v gstep vs daemon/src/event/mod.rs Global '
